@@ -6,7 +6,7 @@ static vnadata_t *slot[NSLOT];
 
 static double complex parse_c(int i)
 {
-    return vh_parse_double(vh_tok[i]) + I * vh_parse_double(vh_tok[i + 1]);
+    return CMPLX(vh_parse_double(vh_tok[i]), vh_parse_double(vh_tok[i + 1]));
 }
 
 static void result(bool ok)
